@@ -376,7 +376,8 @@ func genC07(g *Gen) {
 			e   *Expr
 		}{{"V", call("-", c("I"), c("P"))}, {"I", call("+", c("I"), k)}, {"V", call("abs", *call("neg", c("I")))}, {"V", call("*", c("F"), c("F"))},
 			{"V", call("!", c("B"))}, {"V", call("+", c("S"), c("S"))}, {"V", call("upper", c("E"))}, {"V", call("len", c("S"))}, {"V", call("isnil", c("S"))},
-			{"V", call("str", c("I"))}, {"V", call("float", c("I"))}, {"S", call("bang", c("X"))}} {
+			{"V", call("str", c("I"))}, {"V", call("float", c("I"))}, {"S", call("bang", c("X"))},
+			{"V", call("isnil", c("E"))}, {"V", call("lenf", c("E"))}, {"V", call("bang", c("E"))}, {"V", call("nilempty", c("S"))}} {
 			g.do(Step{Op: "Eval", Recv: f, Dst: toBS(e.dst), Expr: e.e, Ctx: userCtx})
 		}
 	})
